@@ -68,6 +68,14 @@ def run(prog: Program, res: Result) -> None:
         res.add(Finding(P, "C18.R1-constructor", "abstract.OptimizationAbstract.__init__::self._config", binit.loc(),
                         "the base constructor does not store `config` as self._config"))
 
+    from .c08 import memoised_methods
+    for (mc, m, txt) in memoised_methods(prog):
+        derefs = [n for n in ast.walk(m.node) if isinstance(n, ast.Attribute) and dotted(n) == "self._config"]
+        if derefs:
+            res.ob(False)
+            res.add(Finding(P, "C18.R1-constructor", f"{mc.qualname[len(PKG) + 1:]}.{m.name}::@{txt}", m.loc(),
+                            f"{mc.name}.{m.name} caches a configuration-derived value with `@{txt}`: it survives "
+                            f"set_config_parameters, so a reconfigured instance does not run like a freshly configured one"))
     for ci in opts:
         resolver = Resolver(prog, ci)
         # sealed methods
